@@ -96,7 +96,11 @@ def load_known(prop):
         data = json.load(open(path))
     except FileNotFoundError:
         return []
-    return [e for e in data.get("findings", []) if e.get("property") == prop]
+    out = [e for e in data.get("findings", []) if e.get("property") == prop]
+    extra = os.environ.get("VERIF_KNOWN_EXTRA")  # development aid only; registered commands never set it
+    if extra and os.path.exists(extra):
+        out += [e for e in json.load(open(extra)).get("findings", []) if e.get("property") == prop]
+    return out
 
 
 def anchors_check(ctx, mod):
